@@ -154,6 +154,18 @@ def dishonest(ch, now):
         anc = ch.pick([e["name"] for e in elems if e["name"] not in ("quote", "quote_b")], "dis.ancestor")
         targets = [anc] + targets if ch.draw(2, "dis.ancestor-first") == 0 else targets + [anc]
         dev = dev + "+ancestor-target"
+    if ch.draw(6, "dis.odd-name") == 1:
+        # element names are whatever the file says (only the root's is reserved): an empty one is a name
+        old = ch.pick([e["name"] for e in elems], "dis.odd-name.which")
+        new = ch.pick(["", " ", "0"], "dis.odd-name.new")
+        if not any(e["name"] == new for e in elems):
+            for e in elems:
+                if e["name"] == old:
+                    e["name"] = new
+                if e["signed_by"] == old:
+                    e["signed_by"] = new
+            targets = [new if t == old else t for t in targets]
+            dev = dev + "+odd-name"
     elems = ch.shuffle(elems, "dis.order")
     return {"version": 2, "targets": targets, "elements": elems}, root_der, dev
 
